@@ -1057,7 +1057,7 @@ fn worker_main(file: &str) {
 // parent: generation
 // ------------------------------------------------------------------------------------------------
 
-const SYLL_KEYS: [&str; 4] = ["hk4", "g4", "hk4g4", "hk4g4hk4"];
+const SYLL_KEYS: [&str; 6] = ["hk4", "g4", "hk4g4", "hk4g4hk4", "xu;", "5j/"];
 
 /// ops whose exported function the translator classifies as possibly mutating the user dictionary
 fn is_mutating(op: &str) -> bool {
@@ -1069,7 +1069,7 @@ fn gen_ops(rng: &mut Rng, disciplined: bool, len: usize) -> Vec<String> {
     let mut ops: Vec<String> = Vec::new();
     let mut stale = true; // no enumeration yet
     while ops.len() < len {
-        let w = rng.weighted(&[14, 8, 6, 10, 10, 10, 5, 4, 8, 8, 8, 8, 6, 5, 6, 5, 4]);
+        let w = rng.weighted(&[14, 8, 6, 10, 10, 10, 5, 4, 8, 8, 8, 8, 6, 5, 6, 5, 4, 3, 3, 3]);
         let mut new: Vec<String> = Vec::new();
         match w {
             0 => {
@@ -1117,7 +1117,40 @@ fn gen_ops(rng: &mut Rng, disciplined: bool, len: usize) -> Vec<String> {
                 _ => format!("cgs:{}", rng.below(2)),
             }),
             15 => new.push(format!("fr:{}", rng.below(8))),
-            _ => new.push("fru".into()),
+            16 => new.push("fru".into()),
+            17 => {
+                // walk the whole keyboard-type enumeration, mixing the two getter variants
+                new.push("ke".into());
+                for _ in 0..(10 + rng.below(10)) {
+                    if rng.chance(1, 2) {
+                        new.push("kh".into());
+                    }
+                    new.push((*rng.pick(&["kt", "kt", "ks"])).to_string());
+                }
+            }
+            18 => {
+                // walk the user-phrase enumeration to its end (and one step beyond)
+                new.push("ue".into());
+                for _ in 0..(1 + rng.below(6)) {
+                    new.push("uh".into());
+                    new.push("ug".into());
+                }
+            }
+            _ => {
+                // open the candidate list and walk one page, twice (the second enumeration restarts it)
+                for ch in "hk4".bytes() {
+                    new.push(format!("k:{}", ch));
+                }
+                new.push("key:9".into());
+                new.push("ce".into());
+                for _ in 0..(1 + rng.below(4)) {
+                    new.push((*rng.pick(&["ct", "cs", "ch"])).to_string());
+                }
+                new.push("ce".into());
+                for _ in 0..(1 + rng.below(4)) {
+                    new.push((*rng.pick(&["ct", "cs", "ch"])).to_string());
+                }
+            }
         }
         for op in new {
             if disciplined && (op == "uh" || op == "ug") && stale {
